@@ -73,6 +73,7 @@ def build(X):
     f.name = "sqlite_time_value"
     f.text = body[:i + 1].strip()
     f.rewrites.append({"rule": "slice", "what": "the statements of translate_datetime_literal_with_sqlite_function up to and including `let time_value = ..;` wrapped as fn sqlite_time_value(value) -> time_value"})
+    f.desugar_slice_patterns()
     f.rewrite_re("R5", r'Regex::new\(r"\(\[\+-\]\\d\{2\}\):\?\(\\d\{2\}\)\$"\)\.unwrap\(\)', "tz_regex()", count=None, why="the constant regex compiles")
     f.rewrite_re("R5", r"(\w+)\s*\.replace\(&value, format!\(\"\{\}:\{\}\", &groups\[1\], &groups\[2\]\)\.as_str\(\)\)\s*\.to_string\(\)", r"replace_tz(&\1, &value, &groups)", count=None,
                  why="Regex::replace with the two captured groups joined by a colon")
